@@ -281,3 +281,15 @@ ALL += [d_delayed, d_delayed_two, d_internal_parallel]
 WORDS["d_delayed"] = [["e"], ["e", "e"]]
 WORDS["d_delayed_two"] = [["e"], ["e", "e"]]
 WORDS["d_internal_parallel"] = [["f", "e"], ["e", "e"], ["f", "e", "f"]]
+
+
+def d_delayed_cancel():
+    # a pending delayed event is cancelled by its sendid (long delay: the cancel always wins); a second one is not
+    a = State(name="a", onentry=[[send("late", delay=400, sid="x"), send("soon", delay=30, sid="y")]],
+              trans=[T("c", [], content=[cancel("x")]), T("late", ["b"]), T("soon", [])])
+    b = State(name="b")
+    return Chart(Scxml(a, b), tags=["delayed", "cancel"])
+
+
+ALL += [d_delayed_cancel]
+WORDS["d_delayed_cancel"] = [["c"], ["c", "c"], []]
